@@ -6,17 +6,17 @@ From CPF Require Import Engine.Query Engine.QueryFacts.
    "replacing a call by its body with the arguments substituted does not change the result",
    for any identifiers (the substitution is on the AST, identifiers that contain one another
    cannot interfere) *)
-Theorem C13_inline : forall d decls env0,
+Theorem C13_inline : forall d decls active env0,
   (forall decl, In decl decls -> skeleton (pd_body decl) = true) ->
   forall e sub env, skeleton e = true -> R env0 sub env ->
-  forall r, seval d decls env0 env e = r -> r <> OutOfFragment ->
-  eval env0 (inline d decls sub e) = r.
+  forall r, seval d decls active env0 env e = r -> r <> OutOfFragment ->
+  eval env0 (inline d decls active sub e) = r.
 Proof. exact inline_seval. Qed.
 Print Assumptions C13_inline.
 
 (* the text-level expansion (what ExpandedCondition emits) is the print of the AST-level one *)
-Theorem C13_expansion_text : forall d decls e tsub sub,
+Theorem C13_expansion_text : forall d decls active e tsub sub,
   tsub_of sub = tsub ->
-  join " "%bs (emit d decls tsub e) = join " "%bs (xprint (inline d decls sub e)).
+  join " "%bs (emit d decls active tsub e) = join " "%bs (xprint (inline d decls active sub e)).
 Proof. exact emit_inline. Qed.
 Print Assumptions C13_expansion_text.
